@@ -343,6 +343,14 @@ func genAssigns(T *kernel.Tape, t *TableDef, allowKey, odku bool) []Assign {
 		}
 		out = append(out, Assign{Col: ci, E: e})
 	}
+	// a generated column may be assigned DEFAULT; put ahead of its source column
+	// it must still end up computed from the source's new value
+	for ci := range t.Cols {
+		if t.Cols[ci].GenFrom >= 0 && T.Bool(1, 4) {
+			out = append([]Assign{{Col: ci, E: Expr{Kind: "default"}}}, out...)
+			break
+		}
+	}
 	return out
 }
 
